@@ -179,7 +179,8 @@ def count_lines(path):
 
 
 FEATURES = ["cancel_hit", "cancel_miss", "full_push", "late_pop", "partial_drain", "lat_wait", "crash_lost",
-            "exit_crash_lost", "ebadf", "einval", "dup_cancel", "dup_both_complete", "append_write"]
+            "exit_crash_lost", "ebadf", "einval", "dup_cancel", "dup_both_complete", "append_write",
+            "ro_fsync"]
 
 
 def features_of(path, acc):
@@ -225,6 +226,8 @@ def features_of(path, acc):
             o = ops.get(u)
             if o and e["res"] >= 0 and o["kind"] == "write" and o.get("hmode") in ("ao", "wa", "ra"):
                 acc["append_write"] += 1       # a ring write completed on a handle opened with append
+            if o and e["res"] == 0 and o["kind"] == "fsync" and o.get("hmode") == "ro":
+                acc["ro_fsync"] += 1           # a ring fsync completed on a read-only handle (a crash image follows every run)
             if o and o["tag"] != u and e["res"] >= 0 and any(
                     c["ev"] == "cqe" and c["tag"] == e["tag"] and c["r"] == e["r"] and c["res"] >= 0 for c in run_cqes):
                 acc["dup_both_complete"] += 1  # two entries tagged alike both completed normally
